@@ -1,6 +1,7 @@
 (* M-FMT, part 2: the tombstone log (foyer-storage/src/engine/block/tombstone.rs).
    A ring of 16-byte slots (hash, sequence), 256 per page; [open] scans every page, returns every slot
-   with a non-zero sequence and resumes writing right after the slot that holds the highest sequence.
+   with a non-zero sequence and resumes writing behind the last occupied slot that follows the slot holding the
+   highest sequence.
    [bug_tail] reproduces defect F5 of the pinned snapshot: the recovered address of that slot lacks the
    page offset, so the tail is always resumed in page 0.  Model only: no proofs in this file. *)
 From Coq Require Import List NArith Bool Arith.
@@ -39,11 +40,25 @@ Fixpoint argmax_from (i : N) (l : list tomb) (best_seq best_slot : N) : N * N :=
 
 Definition recovered (l : list tomb) : list tomb := filter (fun t => negb (t_seq t =? 0)) l.
 
+(* from the slot of the newest tombstone on, skip the occupied slots (ring order): with several flushers the log is
+   not written in sequence order and the newest tombstone need not be the last one written (repair 0eebaad);
+   [None] = occupied all the way round *)
+Fixpoint skip_occupied (fuel : nat) (total : N) (dev : list tomb) (last : N) : option N :=
+  match fuel with
+  | O => None
+  | S f =>
+      if t_seq (nth (N.to_nat ((last + 1) mod total)) dev empty_tomb) =? 0 then Some last
+      else skip_occupied f total dev (last + 1)
+  end.
+
 (* TombstoneLog::open: the recovered tombstones and the resumed tail *)
 Definition topen (bug_tail : bool) (pages : N) (dev : list tomb) : tlog * list tomb :=
   let '(_, latest) := argmax_from 0 dev 0 0 in
-  let latest_slot := if bug_tail then latest mod SLOTS_PER_PAGE else latest in
-  (mkTlog pages dev (latest_slot + 1), recovered dev).
+  let total := pages * SLOTS_PER_PAGE in
+  let last :=
+    if bug_tail then latest mod SLOTS_PER_PAGE     (* the pinned snapshot: F5, and no skipping *)
+    else match skip_occupied (N.to_nat total) total dev latest with Some l => l | None => latest end in
+  (mkTlog pages dev (last + 1), recovered dev).
 
 (* calculate_slot_addr: page = (slot / 256) mod pages, in-page slot = slot mod 256 *)
 Definition slot_index (pages slot : N) : N :=
